@@ -2,6 +2,7 @@ package props
 
 import (
 	"crypto/x509"
+	"crypto/x509/pkix"
 	"encoding/json"
 	"encoding/pem"
 	"fmt"
@@ -77,6 +78,30 @@ func faults02() []fault02 {
 		{"quote-entirely-from-other-pki", "reject", func(a, b *world.World, r *mrand.Rand) {
 			chain(a, b.PKI.Leaf, b.PKI.Inter, b.PKI.Root)
 			a.Q.SignQE(b.PKI.Leaf.Key)
+		}},
+		// PCK certificates whose SGX extension is marked critical: under a foreign PKI (nothing but the trust anchor stands in the
+		// way), and under the genuine CA (the reference has no opinion: x509 refuses unhandled critical extensions)
+		{"quote-entirely-from-other-pki-critical-sgx-extension", "reject", func(a, b *world.World, r *mrand.Rand) {
+			t := world.LeafTemplate(world.Far, nil)
+			t.ExtraExtensions = []pkix.Extension{{Id: world.OidSgx, Critical: true, Value: world.SgxExtension(a.P)}}
+			leaf := world.Issue(t, b.PKI.Inter, world.NewKey())
+			chain(a, leaf, b.PKI.Inter, b.PKI.Root)
+			a.Q.SignQE(leaf.Key)
+		}},
+		{"identifier-copying-pki-critical-sgx-extension", "reject", func(a, b *world.World, r *mrand.Rand) {
+			l := world.LookalikePKI(a.PKI, world.SgxExtension(a.P))
+			t := world.LeafTemplate(world.Far, nil)
+			t.ExtraExtensions = []pkix.Extension{{Id: world.OidSgx, Critical: true, Value: world.SgxExtension(a.P)}}
+			t.SerialNumber = a.PKI.Leaf.Cert.SerialNumber
+			leaf := world.Issue(t, l.Inter, world.NewKey())
+			chain(a, leaf, l.Inter, l.Root)
+			a.Q.SignQE(leaf.Key)
+		}},
+		{"own-leaf-with-critical-sgx-extension", "", func(a, b *world.World, r *mrand.Rand) {
+			t := world.LeafTemplate(world.Far, nil)
+			t.ExtraExtensions = []pkix.Extension{{Id: world.OidSgx, Critical: true, Value: world.SgxExtension(a.P)}}
+			leaf := world.Issue(t, a.PKI.Inter, a.PKI.Leaf.Key)
+			chain(a, leaf, a.PKI.Inter, a.PKI.Root)
 		}},
 		// the same with a look-alike PKI that also copies every identifier of the genuine certificates (serial numbers, key
 		// identifiers, validity): nothing but the keys distinguishes the two
@@ -434,6 +459,69 @@ func c02(x *mon.Ctx) {
 			&rotCase{Class: "rot-bad-bundle", Param: name + "/file-after-good-file", Files: []string{goodPEM, bad}, Quote: qs[0].raw, Times: tms, WantErr: true},
 			&rotCase{Class: "rot-bad-bundle", Param: name + "/inline-after-good-file", Files: []string{goodPEM}, Inline: []string{bad}, Quote: qs[0].raw, Times: tms, WantErr: true},
 		)
+	}
+	// the SAME bundle path read by two configurations in one process, the file replaced in between by one of equal length and
+	// the same (or an older) modification time — a staged file renamed over it, a restore from backup: what counts is what the
+	// file lists when the configuration is read
+	{
+		wa := pk[0]
+		var wb *world.World
+		for try := 0; try < 200 && wb == nil; try++ {
+			c := world.Honest(rr, world.HonestOpts{})
+			if len(c.PKI.Root.PEM) == len(wa.PKI.Root.PEM) {
+				wb = c
+			}
+		}
+		if wb == nil {
+			x.Broken("no second root with a PEM of equal length in 200 tries")
+		} else {
+			path := filepath.Join(dir, "replaced-bundle.pem")
+			t0 := time.Now().Add(-48 * time.Hour).Truncate(time.Second)
+			verdicts := func() (a, b bool, err error) {
+				o, err := verify.RootOfTrustToOptions(&ccpb.RootOfTrust{CabundlePaths: []string{path}})
+				if err != nil {
+					return false, false, err
+				}
+				o.Getter = &world.Getter{R: map[string]world.Resp{}}
+				o.Now = &verify.TimeSet{PckCertChain: world.Epoch, TcbInfo: world.Epoch, QeIdentity: world.Epoch, PckCrl: world.Epoch, RootCaCrl: world.Epoch}
+				return verify.RawTdxQuote(wa.Q.Bytes(), o) == nil, verify.RawTdxQuote(wb.Q.Bytes(), o) == nil, nil
+			}
+			for _, how := range []string{"renamed-over-older-mtime", "renamed-over-same-mtime", "rewritten-same-mtime"} {
+				_ = os.WriteFile(path, wa.PKI.Root.PEM, 0o644)
+				_ = os.Chtimes(path, t0, t0)
+				a1, b1, err1 := verdicts()
+				switch how {
+				case "rewritten-same-mtime":
+					_ = os.WriteFile(path, wb.PKI.Root.PEM, 0o644)
+					_ = os.Chtimes(path, t0, t0)
+				default:
+					tmp := path + ".staged"
+					_ = os.WriteFile(tmp, wb.PKI.Root.PEM, 0o644)
+					mt := t0
+					if how == "renamed-over-older-mtime" {
+						mt = t0.Add(-24 * time.Hour)
+					}
+					_ = os.Chtimes(tmp, mt, mt)
+					_ = os.Rename(tmp, path)
+				}
+				a2, b2, err2 := verdicts()
+				prob := ""
+				switch {
+				case err1 != nil || err2 != nil:
+					prob = fmt.Sprintf("configuration refused: %v / %v", err1, err2)
+				case !a1 || b1:
+					prob = fmt.Sprintf("before the replacement: quote under the listed root accepted=%v, under the other root accepted=%v", a1, b1)
+				case a2 || !b2:
+					prob = fmt.Sprintf("after the bundle file was replaced (%s) by one listing root B only: quote under root A accepted=%v, quote under root B accepted=%v — the configuration still trusts what the file used to list", how, a2, b2)
+				}
+				if prob != "" {
+					x.Violation("rot-file-replaced", how, prob, "none", how)
+				}
+				x.Note("rot-file-replaced", how, b2, false, prob == "")
+				_ = os.Remove(path)
+			}
+			x.Require("rot-file-replaced", 3, 0, 3)
+		}
 	}
 	// roots whose validity period does not contain the wall clock (a retired PKI audited later, a PKI provisioned ahead of
 	// time): whether a listed root counts is decided at the verification time the caller gives, not when the bundle is read
